@@ -207,7 +207,10 @@ public:
     addEpoll(_timerFd, EPOLLIN);
     armGc(_config.gcInterval);
 
-    if (_config.batching.enabled)
+    // Created once and kept across stop()/start() cycles: getStats() reads
+    // _batchProcessor from arbitrary threads, so start() must not replace (and
+    // thereby destroy) it underneath them.
+    if (_config.batching.enabled && !_batchProcessor)
     {
       BatchProcessingConfig batchCfg;
       batchCfg.maxBatchSize = _config.batching.maxBatchSize;
